@@ -184,12 +184,15 @@ func InitState(preParse RawConfig, worldState common.WorldState) (sta *State, er
 
 	sta.AdminUID = preParse.AdminUID
 
-	var arrUID [16]byte
 	for _, UID := range preParse.BypassUID {
+		// a fresh array for every entry, as in IsBypass: an entry shorter than 16 bytes must not inherit
+		// the tail of the previous one
+		var arrUID [16]byte
 		copy(arrUID[:], UID)
 		sta.BypassUID[arrUID] = struct{}{}
 	}
 	if len(sta.AdminUID) != 0 {
+		var arrUID [16]byte
 		copy(arrUID[:], sta.AdminUID)
 		sta.BypassUID[arrUID] = struct{}{}
 	}
